@@ -119,6 +119,9 @@ def reset_initial_conditions(
     InitCond.ccx_early_sen = 0
     InitCond.cc_prev = 0
     InitCond.protected_seed = 0
+    # initial canopy size of the new season's crop (as for a run that starts
+    # on the planting date)
+    InitCond.cc0_adj = crop.CC0
     InitCond.sumET0EarlySen = 0
     InitCond.HIfinal = crop.HI0
     InitCond.DryYield = 0
